@@ -331,11 +331,12 @@ func (vfs *OrefaFS) Link(oldname, newname string) error {
 
 	nDirName, nFileName := avfs.SplitAbs(vfs, nAbsPath)
 
-	vfs.mu.RLock()
+	vfs.mu.Lock()
+	defer vfs.mu.Unlock()
+
 	oChild, oChildOk := vfs.nodes[oAbsPath]
 	_, nChildOk := vfs.nodes[nAbsPath]
 	nParent, nParentOk := vfs.nodes[nDirName]
-	vfs.mu.RUnlock()
 
 	if !oChildOk {
 		err := vfs.err.NoSuchFile
@@ -343,10 +344,7 @@ func (vfs *OrefaFS) Link(oldname, newname string) error {
 		if vfs.OSType() == avfs.OsWindows {
 			oDirName, _ := avfs.SplitAbs(vfs, oAbsPath)
 
-			vfs.mu.RLock()
 			_, oParentOk := vfs.nodes[oDirName]
-			vfs.mu.RUnlock()
-
 			if !oParentOk {
 				err = vfs.err.NoSuchDir
 			}
@@ -359,19 +357,8 @@ func (vfs *OrefaFS) Link(oldname, newname string) error {
 		return &os.LinkError{Op: op, Old: oldname, New: newname, Err: vfs.err.NoSuchFile}
 	}
 
-	oChild.mu.Lock()
-	defer oChild.mu.Unlock()
-
-	nParent.mu.Lock()
-	defer nParent.mu.Unlock()
-
-	if oChild.mode.IsDir() {
-		err := error(avfs.ErrOpNotPermitted)
-		if vfs.OSType() == avfs.OsWindows {
-			err = avfs.ErrWinAccessDenied
-		}
-
-		return &os.LinkError{Op: op, Old: oldname, New: newname, Err: err}
+	if !nParent.mode.IsDir() {
+		return &os.LinkError{Op: op, Old: oldname, New: newname, Err: vfs.err.NotADirectory}
 	}
 
 	if nChildOk {
@@ -383,9 +370,23 @@ func (vfs *OrefaFS) Link(oldname, newname string) error {
 		return &os.LinkError{Op: op, Old: oldname, New: newname, Err: err}
 	}
 
-	vfs.mu.Lock()
+	if oChild.mode.IsDir() {
+		err := error(avfs.ErrOpNotPermitted)
+		if vfs.OSType() == avfs.OsWindows {
+			err = avfs.ErrWinAccessDenied
+		}
+
+		return &os.LinkError{Op: op, Old: oldname, New: newname, Err: err}
+	}
+
+	// oChild is not a directory and nParent is one : they are different nodes.
+	nParent.mu.Lock()
+	defer nParent.mu.Unlock()
+
+	oChild.mu.Lock()
+	defer oChild.mu.Unlock()
+
 	vfs.nodes[nAbsPath] = oChild
-	vfs.mu.Unlock()
 
 	nParent.addChild(nFileName, oChild)
 
